@@ -1,6 +1,6 @@
 (* GENERATED from the live compiled regexps of /repo by gxtool regex + harness/vlib/gen.py. DO NOT EDIT. *)
 From GV Require Import Base.Str Regex.Re.
-Open Scope N_scope.
+Local Open Scope N_scope.
 
 (* compiler_DecoratorMethod : \A(((?P<import>(([A-Za-z](\/?[A-Z-a-z0-9._-])* )|("[A-Za-z](\/?[A-Z-a-z0-9._-])*")|"\."))\.)?(?P<fn>[A-Za-z][A-Za-z0-9_]* ))\z *)
 Definition site_compiler_DecoratorMethod : site :=
